@@ -6,6 +6,8 @@ from . import parts
 def run(tier):
     ck = common.Check('C09', tier)
     res = parts.run_parts(ck, tier, ir_parts=('ir_steal',))
+    from .. import irrules
+    irrules.run_canaries(ck, {'ir_steal': [('R09.1', 'canary_steal_then_touch')]})
     r = res.get('ir_steal', [])
     ck.floor('paths that adopt another container\'s buffer', sum(x['res']['steal_paths'] for x in r), 300 if tier == 'quick' else 3000)
     ck.floor('element-wise transfer paths', sum(x['res']['elementwise_paths'] for x in r), 300 if tier == 'quick' else 3000)
